@@ -1825,3 +1825,170 @@ func funcDeclOf(p *Program, fobj *types.Func) *ast.FuncDecl {
 	}
 	return nil
 }
+
+var interpreterOnlyCache = map[*Program]map[*ssa.Function]bool{}
+
+// interpreterOnly: the functions of the machine that only the interpreter
+// runs — every static call of them sits in the interpreter itself or in another
+// such function, and they are never used as values.  They are parts of opcode
+// handlers that were given a function of their own (whatever the number of
+// handlers that share them).
+func interpreterOnly(p *Program, a *anchors) map[*ssa.Function]bool {
+	if m, ok := interpreterOnlyCache[p]; ok {
+		return m
+	}
+	cand := map[*ssa.Function]bool{}
+	for _, f := range p.LibFns {
+		if fnPkg(f) == nil || fnPkg(f).Pkg.Path() != Mod+"/vm" || f.Parent() != nil || f == a.vmRun || f == a.vmEntry || f == a.vmNew {
+			continue
+		}
+		if f.Object() != nil && f.Object().Exported() {
+			continue // part of the machine's API: others may call it
+		}
+		if functionUsedAsValue(p, f) || len(staticCallSites(p, f)) == 0 {
+			continue
+		}
+		cand[f] = true
+	}
+	for changed := true; changed; {
+		changed = false
+		for f := range cand {
+			for _, site := range staticCallSites(p, f) {
+				caller := site.Parent()
+				for caller != nil && caller.Parent() != nil {
+					caller = caller.Parent()
+				}
+				if caller != a.vmRun && !cand[caller] {
+					delete(cand, f)
+					changed = true
+					break
+				}
+			}
+		}
+	}
+	interpreterOnlyCache[p] = cand
+	return cand
+}
+
+// closureDeletesFrom: the function literal behind mc removes an entry from the
+// set kept in the field fk: delete(set, key) where set is that field read
+// through the captured receiver, or a captured local that was assigned that
+// field's value (`set := vm.converting; return func() { delete(set, ref) }`).
+func closureDeletesFrom(mc *ssa.MakeClosure, fk string) bool {
+	body, ok := mc.Fn.(*ssa.Function)
+	if !ok {
+		return false
+	}
+	holdsField := func(v ssa.Value) bool {
+		// the captured variable: an Alloc whose stores are loads of the field
+		al, ok := v.(*ssa.Alloc)
+		if !ok {
+			return false
+		}
+		n := 0
+		for _, ref := range *al.Referrers() {
+			if st, ok := ref.(*ssa.Store); ok && st.Addr == ssa.Value(al) {
+				n++
+				ld, ok := st.Val.(*ssa.UnOp)
+				if !ok || fieldKey(ld.X) != fk {
+					return false
+				}
+			}
+		}
+		return n > 0
+	}
+	for _, b := range body.Blocks {
+		for _, ins := range b.Instrs {
+			c, ok := ins.(*ssa.Call)
+			if !ok {
+				continue
+			}
+			bi, ok := c.Call.Value.(*ssa.Builtin)
+			if !ok || bi.Name() != "delete" || len(c.Call.Args) != 2 {
+				continue
+			}
+			ld, ok := c.Call.Args[0].(*ssa.UnOp)
+			if !ok {
+				continue
+			}
+			if fieldKey(ld.X) == fk {
+				return true
+			}
+			if fv, ok := ld.X.(*ssa.FreeVar); ok {
+				for i, q := range body.FreeVars {
+					if q == fv && i < len(mc.Bindings) && holdsField(mc.Bindings[i]) {
+						return true
+					}
+				}
+			}
+		}
+	}
+	return false
+}
+
+// undoHandedBack: h hands back, next to a true last result, a function that
+// removes from the set fk — on every such return; and nil (or nothing that
+// will be called) otherwise.
+func undoHandedBack(h *ssa.Function, fk string) (idx int, ok bool) {
+	if h == nil || len(h.Blocks) == 0 {
+		return 0, false
+	}
+	rs := h.Signature.Results()
+	idx = -1
+	for i := 0; i < rs.Len(); i++ {
+		if sg, isSig := rs.At(i).Type().Underlying().(*types.Signature); isSig && sg.Params().Len() == 0 && sg.Results().Len() == 0 {
+			idx = i
+		}
+	}
+	if idx < 0 {
+		return 0, false
+	}
+	n := 0
+	for _, b := range h.Blocks {
+		ret, isRet := terminator(b).(*ssa.Return)
+		if !isRet || idx >= len(ret.Results) {
+			continue
+		}
+		v := returnOperand(ret, idx)
+		if c, isC := v.(*ssa.Const); isC && c.IsNil() {
+			continue
+		}
+		mc, isMC := v.(*ssa.MakeClosure)
+		if !isMC || !closureDeletesFrom(mc, fk) {
+			return 0, false
+		}
+		n++
+	}
+	return idx, n > 0
+}
+
+// defersUndoHandedBack: g defers the function a call of such a helper handed
+// back (`leave, ok := vm.enterHost(x); if !ok {…}; defer leave()`).
+func defersUndoHandedBack(g *ssa.Function, fk string) bool {
+	for _, b := range g.Blocks {
+		for _, ins := range b.Instrs {
+			d, ok := ins.(*ssa.Defer)
+			if !ok || d.Call.IsInvoke() || d.Call.StaticCallee() != nil {
+				continue
+			}
+			for _, o := range origins(d.Call.Value) {
+				var cl *ssa.Call
+				idx := 0
+				switch x := o.(type) {
+				case *ssa.Extract:
+					cl, _ = x.Tuple.(*ssa.Call)
+					idx = x.Index
+				case *ssa.Call:
+					cl = x
+				}
+				if cl == nil || cl.Call.StaticCallee() == nil {
+					continue
+				}
+				if hi, ok := undoHandedBack(cl.Call.StaticCallee(), fk); ok && hi == idx {
+					return true
+				}
+			}
+		}
+	}
+	return false
+}
